@@ -18,12 +18,13 @@ var VerifHarnesses = map[string]func(*verifrt.T){
 	"H_TB_tags":    H_TB_tags,
 	"H_TB_deep":    H_TB_deep,
 	"H_TB_recmap":  H_TB_recmap,
+	"H_TB_recouter": H_TB_recouter,
 }
 
 // VerifSetup warms the opcode caches once per engine worker (the compiler runs
 // concretely on the type tokens; the values stay symbolic in the harnesses).
 func VerifSetup() {
-	for _, v := range []interface{}{&vtScalars{}, vtScalars{}, &vtNested{}, &vtRec{}, &vtIface{}, vtInner{}, &vtInner{}, &vsT{}, &vtTags{}, vtTags{}, &vtTop{}, vtTop{}, &vtIface2{}, &vtRecMap{}, &vtHolder{}} {
+	for _, v := range []interface{}{&vtScalars{}, vtScalars{}, &vtNested{}, &vtRec{}, &vtIface{}, vtInner{}, &vtInner{}, &vsT{}, &vtTags{}, vtTags{}, &vtTop{}, vtTop{}, &vtIface2{}, &vtRecMap{}, &vtHolder{}, []interface{}{vtOuter{}}, &vtOuter{}} {
 		Marshal(v)
 		MarshalIndent(v, "", " ")
 		MarshalWithOption(v, Colorize(&ColorScheme{}))
@@ -707,4 +708,58 @@ func H_TB_recmap(t *verifrt.T) {
 	// nested element with a non-empty map: the VM applies the wrong program to the map's values
 	t.KnownIfCrash("D14-recursive-first-field-then-map-of-interface-crashes", v.Next != nil && len(v.Next.M) > 0)
 	checkMarshal(t, v, b)
+}
+
+// ---------------------------------------------------------------- recursive member inside a larger struct, inside an interface frame
+
+type vtOuter struct {
+	Name string  `json:"name"`
+	List *vtRec  `json:"list"`
+	Grid [][]int `json:"grid"`
+	Tail int     `json:"tail"`
+}
+
+func H_TB_recouter(t *verifrt.T) {
+	o := vtOuter{Name: plainString(t, "name", 1), Tail: int(smallInt(t, "tail"))}
+	b := []byte(`{"name":`)
+	b = refStr(b, o.Name)
+	b = append(b, `,"list":`...)
+	depth := t.Choice("depth", 4)
+	if depth == 0 {
+		b = append(b, "null"...)
+	} else {
+		head := &vtRec{V: int(smallInt(t, "v")), Tail: "h"}
+		cur := head
+		for i := 1; i < depth; i++ {
+			cur.Next = &vtRec{V: i, Tail: "t"}
+			cur = cur.Next
+		}
+		o.List = head
+		b = refRec(b, head)
+	}
+	b = append(b, `,"grid":`...)
+	switch t.Choice("grid", 3) {
+	case 0:
+		b = append(b, "null"...)
+	case 1:
+		o.Grid = [][]int{{1}, {}}
+		b = append(b, `[[1],[]]`...)
+	case 2:
+		x := int(smallInt(t, "g"))
+		o.Grid = [][]int{{x, 2}, nil, {3}}
+		b = append(b, `[[`...)
+		b = refInt(b, int64(x))
+		b = append(b, `,2],null,[3]]`...)
+	}
+	b = append(b, `,"tail":`...)
+	b = refInt(b, int64(o.Tail))
+	b = append(b, '}')
+	switch t.Choice("frame", 3) {
+	case 0:
+		checkMarshal(t, &o, b)
+	case 1:
+		checkMarshal(t, []interface{}{o}, append(append([]byte{'['}, b...), ']'))
+	case 2:
+		checkMarshal(t, []interface{}{o, 7, &o}, append(append(append(append([]byte{'['}, b...), `,7,`...), b...), ']'))
+	}
 }
